@@ -43,7 +43,7 @@ class Spec:
     def __init__(self, pid, harness, variant="asan", cases=None, workers=16, rule="", assumptions=None,
                  needs=("lib",), extra_args=None, libs=("-lrapidcheck",), timeout=None, exhaustive_note=None,
                  extra_objs=(), custom=None, single_worker_parts=None, technique="", level_text="", level_note="",
-                 design_ref=""):
+                 design_ref="", fuzz=None):
         self.pid = pid
         self.harness = harness          # source file under harness/
         self.variant = variant
@@ -62,6 +62,7 @@ class Spec:
         self.level_text = level_text
         self.level_note = level_note
         self.design_ref = design_ref
+        self.fuzz = fuzz  # optional libFuzzer stage: {"define": "-DX", "runs": {tier: n}, "workers": {tier: n}, "max_len": n}
 
 
 def build_for(spec, builder):
@@ -96,6 +97,21 @@ def build_for(spec, builder):
     if "ref" in spec.needs:
         exe.deps.append(builder.reflib())
     wanted.append(exe)
+    if spec.fuzz:
+        fsrc = os.path.join(VERIF, "harness", spec.harness)
+        fobjs = [builder.harness_obj(fsrc, "fuzz", extra=[spec.fuzz["define"]], name=os.path.splitext(spec.harness)[0] + "_fz")]
+        if "optable" in spec.needs and builder.gen_recorder() not in fobjs[0].deps:
+            fobjs[0].deps.append(builder.gen_recorder())
+        fobjs.append(builder.harness_obj(os.path.join(VERIF, "harness", "common", "shim_core.cpp"), "fuzz", extra=["-DSHIM_PREFIX=sut_"]))
+        fobjs.append(builder.harness_obj(os.path.join(VERIF, "harness", "common", "flat_state.cpp"), "fuzz", needs_repo_headers=False))
+        if "optable" in spec.needs:
+            fo = builder.harness_obj(os.path.join(VERIF, "harness", "common", "optable.cpp"), "fuzz")
+            if builder.gen_recorder() not in fo.deps:
+                fo.deps.append(builder.gen_recorder())
+            fobjs.append(fo)
+        fobjs += builder.repo_lib("fuzz")
+        fexe = builder.exe(os.path.splitext(spec.harness)[0] + "_fuzz", fobjs, "fuzz", libs=["-lrapidcheck"])
+        wanted.append(fexe)
     if "makedsp1" in spec.needs:
         # the repository's own assembler tool, built unmodified as its own executable
         mk = builder.exe("makedsp1", [builder.repo_obj("makedsp1/main", spec.variant), builder.repo_obj("makedsp1/sha256", spec.variant),
@@ -191,6 +207,38 @@ def run_check(spec, tier, seed, replay=None, verbose=False, workers_override=Non
         if rc == "timeout":
             notes.append(f"{tag}: time budget exhausted (inconclusive, not a violation)")
             return rep
+        log_text = open(log, errors="replace").read() if os.path.exists(log) else ""
+        if rc not in (0, 1) and rep is not None and "ThreadSanitizer: reported" in log_text:
+            # ThreadSanitizer reported although the harness itself finished: a data race / lock-order report
+            kinds = re.findall(r"WARNING: ThreadSanitizer: ([^\n(]+)", log_text)
+            fns = []
+            for fm in re.finditer(r"#\d+ (?:0x[0-9a-f]+ in )?(Teakra::[\w:~]+)", log_text):
+                if fm.group(1) not in fns:
+                    fns.append(fm.group(1))
+                if len(fns) >= 2:
+                    break
+            sig = f"{pid}:tsan:" + (kinds[0].strip().replace(" ", "-") if kinds else "report") + ":" + "|".join(fns)
+            os.makedirs(faildir, exist_ok=True)
+            path = os.path.join(faildir, "tsan-%s-%s.case" % (tag, time.strftime("%H%M%S")))
+            with open(path, "w") as f:
+                f.write("prop=tsan_rerun\n" + " ".join(cmd[1:]) + "\n# sig=%s\n" % sig)
+                f.write("# " + "\n# ".join(log_text.splitlines()[:60]) + "\n")
+            confirmed = 1
+            for i in range(2):
+                r2 = os.path.join(rundir, f"tsanconfirm-{tag}-{i}.json")
+                rc2 = run_cmd([cmd[0], "--report", r2] + [a for a in cmd[3:]], os.path.join(rundir, f"tsanconfirm-{tag}-{i}.log"), timeout, env)
+                l2 = os.path.join(rundir, f"tsanconfirm-{tag}-{i}.log")
+                if rc2 not in (0, 1) and "ThreadSanitizer: reported" in open(l2, errors="replace").read():
+                    confirmed += 1
+            if sig in known:
+                known_hits.setdefault(sig, [0, ""])
+                known_hits[sig][0] += 1
+            elif confirmed == 3:
+                m = re.search(r"WARNING: ThreadSanitizer:[^\n]*", log_text)
+                violations.append((sig, (m.group(0) if m else "ThreadSanitizer report") + "\n" + log_text[:3000], path))
+            else:
+                notes.append(f"{tag}: ThreadSanitizer report did not reproduce 3x ({confirmed}/3): {sig}")
+            return rep
         crashed = rc not in (0, 1) or rep is None
         if crashed:
             log_text = open(log, errors="replace").read()
@@ -230,6 +278,34 @@ def run_check(spec, tier, seed, replay=None, verbose=False, workers_override=Non
     # ---- replay tier: every committed regression case first ------------------------------------
     replay_files = [replay] if replay else sorted(glob.glob(os.path.join(REPLAY_DIR, pid, "*.case")))
     n_replayed = 0
+    fuzz_replays = []
+    if spec.fuzz:
+        cand = [replay] if replay else sorted(glob.glob(os.path.join(REPLAY_DIR, pid, "fuzz-*")))
+        fuzz_replays = [f for f in cand if f and os.path.basename(f).startswith("fuzz-")]
+        replay_files = [f for f in replay_files if f not in fuzz_replays]
+    for i, rf in enumerate(fuzz_replays):
+        fexe = os.path.join(builder.dir, os.path.splitext(spec.harness)[0] + "_fuzz")
+        l2 = os.path.join(rundir, f"fzreplay{i}.log")
+        fails = sum(1 for _ in range(3) if run_cmd([fexe, rf], l2, 300, env) != 0)
+        if fails == 3:
+            text = open(l2, errors="replace").read()
+            m = re.search(r"VERIF-VIOLATION sig=(\S+)", text)
+            sig = m.group(1) if m else f"{pid}:crash:" + sanitizer_signature(text)
+            if sig in known:
+                known_hits.setdefault(sig, [0, ""])
+                known_hits[sig][0] += 1
+            else:
+                violations.append((sig, text[-600:], rf))
+    for i, rf in enumerate(list(replay_files)):
+        first = open(rf, errors="replace").readline().strip() if os.path.exists(rf) else ""
+        if first == "prop=tsan_rerun":
+            args = open(rf).read().splitlines()[1].split()
+            report = os.path.join(rundir, f"replay-{i}.json")
+            # the recorded worker command line: --report <old> --seed S --cases N ...
+            args = [a for k, a in enumerate(args) if not (k < 2)]
+            handle_worker(f"replay{i}", [exe.out, "--report", report] + args, report, os.path.join(rundir, f"replay-{i}.log"), spec.timeout[tier])
+            n_replayed += 1
+            replay_files.remove(rf)
     for i, rf in enumerate(replay_files):
         report = os.path.join(rundir, f"replay-{i}.json")
         rep = handle_worker(f"replay{i}", [exe.out, "--report", report, "--replay", rf] + common,
@@ -256,8 +332,68 @@ def run_check(spec, tier, seed, replay=None, verbose=False, workers_override=Non
                 if rep:
                     reports.append(rep)
 
+    # ---- coverage-guided stage (libFuzzer), same oracle inside the target ------------------------------------
+    fuzz_stats = None
+    if spec.fuzz and not replay:
+        import concurrent.futures
+        fexe = os.path.join(builder.dir, os.path.splitext(spec.harness)[0] + "_fuzz")
+        FW = spec.fuzz["workers"][tier]
+        runs = spec.fuzz["runs"][tier]
+        seeds_dir = os.path.join(VERIF, "fuzz", "seeds", pid)
+        fenv = dict(env)
+        fenv["ASAN_OPTIONS"] = env["ASAN_OPTIONS"].replace("handle_abort=1", "handle_abort=0")
+
+        def fuzz_worker(w):
+            corpus = os.path.join(rundir, f"corpus{w}")
+            os.makedirs(corpus)
+            if w % 2 == 0 and os.path.isdir(seeds_dir):   # half of the workers start from the seed corpus, half from nothing
+                for f in os.listdir(seeds_dir):
+                    shutil.copy(os.path.join(seeds_dir, f), corpus)
+            log = os.path.join(rundir, f"fuzz{w}.log")
+            cmd = [fexe, f"-runs={runs}", f"-seed={derive_seed(seed, 100 + w) % 2147483647 + 1}", f"-max_len={spec.fuzz.get('max_len', 1024)}",
+                   f"-artifact_prefix={rundir}/fz{w}-", "-print_final_stats=1", "-timeout=60", "-rss_limit_mb=4096", corpus]
+            rc = run_cmd(cmd, log, spec.timeout[tier], fenv)
+            text = open(log, errors="replace").read()
+            execs = re.search(r"stat::number_of_executed_units:\s*(\d+)", text)
+            cov = re.findall(r"cov: (\d+) ft: (\d+)", text)
+            return w, rc, int(execs.group(1)) if execs else 0, (int(cov[-1][0]), int(cov[-1][1])) if cov else (0, 0), len(os.listdir(corpus)), text
+
+        fuzz_stats = {"workers": FW, "runs_per_worker": runs, "executions": 0, "coverage_edges_max": 0, "features_max": 0, "corpus_files": 0}
+        with concurrent.futures.ThreadPoolExecutor(max_workers=FW) as ex:
+            for w, rc, execs, cov, ncorp, text in ex.map(fuzz_worker, range(FW)):
+                fuzz_stats["executions"] += execs
+                fuzz_stats["coverage_edges_max"] = max(fuzz_stats["coverage_edges_max"], cov[0])
+                fuzz_stats["features_max"] = max(fuzz_stats["features_max"], cov[1])
+                fuzz_stats["corpus_files"] += ncorp
+                arts = [a for a in glob.glob(os.path.join(rundir, f"fz{w}-*")) if os.path.basename(a).startswith((f"fz{w}-crash-", f"fz{w}-leak-"))]
+                if rc == "timeout":
+                    notes.append(f"fuzz{w}: time budget exhausted (inconclusive, not a violation)")
+                for a in arts:
+                    os.makedirs(faildir, exist_ok=True)
+                    dest = os.path.join(faildir, "fuzz-" + os.path.basename(a))
+                    shutil.copy(a, dest)
+                    m = re.search(r"VERIF-VIOLATION sig=(\S+)", text)
+                    sig = m.group(1) if m else f"{pid}:crash:" + sanitizer_signature(text)
+                    confirmed = 0
+                    for i in range(3):
+                        l2 = os.path.join(rundir, f"fzconfirm{w}-{i}.log")
+                        rc2 = run_cmd([fexe, dest], l2, 300, fenv)
+                        if rc2 != 0:
+                            confirmed += 1
+                    if sig in known:
+                        known_hits.setdefault(sig, [0, ""])
+                        known_hits[sig][0] += 1
+                    elif confirmed == 3:
+                        m2 = re.search(r"[^\n]*(runtime error|ERROR: AddressSanitizer|VERIF-VIOLATION)[^\n]*(\n[^\n]*)?", text)
+                        violations.append((sig, (m2.group(0) if m2 else text[-300:]), dest))
+                    else:
+                        notes.append(f"fuzz{w}: artifact {os.path.basename(a)} did not reproduce 3x ({confirmed}/3)")
+        evaluations_fuzz = fuzz_stats["executions"]
+    else:
+        evaluations_fuzz = 0
+
     # ---- merge -----------------------------------------------------------------------------------
-    evaluations = sum(r.get("evaluations", 0) for r in reports)
+    evaluations = sum(r.get("evaluations", 0) for r in reports) + evaluations_fuzz
     classes = {}
     subchecks = {}
     samples = []
@@ -309,6 +445,7 @@ def run_check(spec, tier, seed, replay=None, verbose=False, workers_override=Non
             "exhaustive_subdomains": sorted(k for k, v in exhaustive.items() if v),
             "notes": notes[:40],
             "repo_tree_key": builder.key,
+            **({"libfuzzer_stage": fuzz_stats} if fuzz_stats else {}),
         },
         "assumptions": spec.assumptions,
         "wall_s": round(wall, 2),
